@@ -283,6 +283,11 @@ def recvStep (t : List (Nat × Nat)) (ev : RecvEv) : List (Nat × Nat) × RecvOu
           let t' := setVal t ev.src ev.seq
           if ev.innerOk then (t', .deliver p) else (t', .dsError .inner)
 
+/-- `APCI.from_knx` is only ever applied to a verified plaintext. -/
+def innerOf (innerOk : Bytes → Bool) : Except Err Bytes → Bool
+  | .ok p => innerOk p
+  | .error _ => false
+
 /-- The abstract event of a concrete frame. -/
 def evOf (E : BlockFn) (ds : DS) (f : Frame) (innerOk : Bytes → Bool) : RecvEv :=
   let key := keyFor ds.keys f.dst
@@ -293,7 +298,7 @@ def evOf (E : BlockFn) (ds : DS) (f : Frame) (innerOk : Bytes → Bool) : RecvEv
       | none => .error .mac          -- never looked at: `keyed = false` is tested first
     { secure := true, group := f.group, keyed := key.isSome, svcOk := scf.service = svcData,
       toolSb := scf.systemBroadcast || scf.toolAccess, src := f.src, seq := Bytes.toNatBE d.seq,
-      verify := v, innerOk := match v with | .ok p => innerOk p | .error _ => false }
+      verify := v, innerOk := innerOf innerOk v }
   | _ =>
     { secure := false, group := f.group, keyed := key.isSome, svcOk := false, toolSb := false,
       src := f.src, seq := 0, verify := .error .mac, innerOk := false }
